@@ -65,6 +65,8 @@ class ItemSpec:
     closures: dict = field(default_factory=dict)
     forloops: dict = field(default_factory=dict)
     structural: bool = False
+    vis_fields: bool = False
+    no_prologue: bool = False
     static_lifetime: bool = False
     drop_attrs: list = field(default_factory=list)
     replace_self: str = ''
@@ -76,6 +78,8 @@ def parse_vc(text):
     unit = None
     uprops = []
     chunks = []
+    prologue = []
+    prologue_open = False
     cur = None
     sec = None
     buf = []
@@ -85,6 +89,12 @@ def parse_vc(text):
             d = s[3:].strip()
             kw, _, rest = d.partition(' ')
             rest = rest.strip()
+            if kw == 'prologue':
+                prologue_open = True
+                continue
+            if kw == 'end-prologue':
+                prologue_open = False
+                continue
             if kw == 'unit':
                 unit = rest
             elif kw == 'properties':
@@ -115,6 +125,10 @@ def parse_vc(text):
             elif cur is None:
                 raise Undecided('vc line %d: directive %r outside item' % (ln, kw))
             elif kw == 'end':
+                if prologue and not cur.no_prologue:
+                    ps = Section('body', src_line=ln)
+                    ps.lines = list(prologue)
+                    cur.sections.insert(0, ps)
                 chunks.append(('item', cur))
                 cur = None
                 sec = None
@@ -122,6 +136,10 @@ def parse_vc(text):
                 cur.ret = rest
             elif kw == 'vis':
                 cur.vis_pub = True
+            elif kw == 'vis-fields':
+                cur.vis_fields = True
+            elif kw == 'no-prologue':
+                cur.no_prologue = True
             elif kw == 'iter':
                 k, nm = rest.split()
                 cur.iters[int(k)] = nm
@@ -143,6 +161,10 @@ def parse_vc(text):
             elif kw in ('loop', 'loop-body', 'loop-end', 'loop-after'):
                 sec = Section(kw, n=int(rest), src_line=ln)
                 cur.sections.append(sec)
+            elif kw == 'eta':
+                k, _, pat = rest.partition(' ')
+                sec = Section('eta', arg=pat.strip(), n=int(k), src_line=ln)
+                cur.sections.append(sec)
             elif kw == 'closure-spec':
                 parts = rest.split(None, 2)
                 sec = Section(kw, arg='%s %s' % (parts[1], parts[2]), n=int(parts[0]), src_line=ln)
@@ -153,6 +175,8 @@ def parse_vc(text):
                 cur.sections.append(sec)
             else:
                 raise Undecided('vc line %d: unknown directive %r' % (ln, kw))
+        elif prologue_open:
+            prologue.append(line)
         else:
             if cur is not None:
                 if sec is not None:
@@ -350,7 +374,7 @@ def weave_item(repo, spec):
     # insertion map: token index -> list of (order, text) inserted BEFORE that token
     ins_before = {}
     ins_after = {}
-    rules = {'R0': 0, 'R1': 0, 'R2': 0, 'R3': 0, 'R4': 0, 'R5': 0, 'R6': 0, 'R7': 0}
+    rules = {'R0': 0, 'R1': 0, 'R2': 0, 'R3': 0, 'R4': 0, 'R5': 0, 'R6': 0, 'R7': 0, 'R8': 0}
     r4c = {}
     obligations = []   # (label, props, kind)
 
@@ -384,6 +408,56 @@ def weave_item(repo, spec):
         else:
             add_before(s, '/*R3<*/pub /*>R3*/')
             rules['R3'] += 1
+
+    if spec.vis_fields:
+        # R3 on fields: every field of the struct becomes `pub` (visibility widening only)
+        if toks[kw].text != 'struct':
+            raise Undecided('vis-fields on non-struct %s' % spec.name)
+        j = kw + 1
+        while j < n and not (toks[j].kind == 'punct' and toks[j].text in ('{', '(')):
+            j += 1
+        if j < n:
+            e = match_close(toks, j)
+            k2 = j + 1
+            at_start = True
+            while k2 < e:
+                u = toks[k2]
+                if at_start:
+                    # skip attributes
+                    while toks[k2].text == '#' and toks[k2 + 1].text == '[':
+                        k2 = match_close(toks, k2 + 1) + 1
+                    u = toks[k2]
+                    if k2 >= e:
+                        break
+                    if u.text == 'pub':
+                        if toks[k2 + 1].text == '(':
+                            e3 = match_close(toks, k2 + 1)
+                            add_before(k2 + 1, '/*R3x<*/')
+                            add_after(e3, '/*>R3x*/')
+                            rules['R3'] += 1
+                    else:
+                        add_before(k2, '/*R3<*/pub /*>R3*/')
+                        rules['R3'] += 1
+                    at_start = False
+                if u.kind == 'punct' and u.text in ('(', '[', '{'):
+                    k2 = match_close(toks, k2) + 1
+                    continue
+                if u.kind == 'punct' and u.text == '<':
+                    # generic args may contain commas: skip to matching '>'
+                    depth = 1
+                    k2 += 1
+                    while k2 < e and depth:
+                        if toks[k2].text == '<':
+                            depth += 1
+                        elif toks[k2].text == '>':
+                            depth -= 1
+                        elif toks[k2].text in ('(', '['):
+                            k2 = match_close(toks, k2)
+                        k2 += 1
+                    continue
+                if u.kind == 'punct' and u.text == ',':
+                    at_start = True
+                k2 += 1
 
     if spec.static_lifetime:
         # R7: `const N: &T = ..`  =>  `const N: &'static T = ..` (the lifetime Rust itself elides to in const items)
@@ -515,7 +589,8 @@ def weave_item(repo, spec):
                 raise Undecided('sig on bodiless item %s' % spec.name)
             add_before(body_open, ghost(sec, 'H'))
         elif sec.kind == 'body':
-            add_after(body_open, ghost(sec, 'S'))
+            if body_open >= 0:
+                add_after(body_open, ghost(sec, 'S'))
         elif sec.kind == 'tail':
             add_before(body_close, ghost(sec, 'S'))
         elif sec.kind in ('loop', 'loop-body', 'loop-end', 'loop-after'):
@@ -530,6 +605,18 @@ def weave_item(repo, spec):
                 add_after(le, ghost(sec, 'S'))
             else:
                 add_before(le, ghost(sec, 'S'))
+        elif sec.kind == 'eta':
+            # R8: a tuple-variant constructor used as a function value is eta-expanded:
+            #     `Self::Start`  =>  `|v| -> (r: Self) ensures r == Self::Start(v) { Self::Start(v) }`
+            pt = [t.text for t in tokenize(sec.arg)]
+            hits = [h for h in _find_pattern(toks, pt, 0, n) if toks[h - 1].text == '(' and toks[h + len(pt)].text == ')']
+            if sec.n >= len(hits):
+                raise Undecided('eta: constructor %r as function value, occurrence %d not found in %s' % (sec.arg, sec.n, spec.name))
+            h = hits[sec.n]
+            ty = pt[0] if len(pt) >= 3 else 'Self'
+            add_before(h, '/*R8<*/|eta_v| -> (eta_r: %s) ensures eta_r == /*>R8*/' % ty)
+            add_after(h + len(pt) - 1, '/*R8<*/(eta_v) { %s(eta_v) }/*>R8*/' % sec.arg)
+            rules['R8'] += 1
         elif sec.kind == 'closure-spec':
             # R6: `|p| EXPR`  =>  `|p| -> (name: T) <ghost clauses> { EXPR }`
             cls = _closures(toks, body_open + 1, body_close)
@@ -634,7 +721,7 @@ def weave(repo, vc_text, incdir=None):
 # ---------------------------------------------------------------------------------------------
 # erasure check (independent of the weaver's bookkeeping: works on the woven text + a fresh extraction)
 
-_marker = re.compile(r'/\*(G<[HS]|>G|R0<|>R0|R1<|>R1|R2<|>R2|R2x<|>R2x|R3<|>R3|R3x<|>R3x|R4[a-ex]<|>R4[a-epx]|R4p<|R5<|>R5|R6<|>R6|R7<|>R7|ITEM<[^*]*|>ITEM)\*/')
+_marker = re.compile(r'/\*(G<[HS]|>G|R0<|>R0|R1<|>R1|R2<|>R2|R2x<|>R2x|R3<|>R3|R3x<|>R3x|R4[a-ex]<|>R4[a-epx]|R4p<|R5<|>R5|R6<|>R6|R7<|>R7|R8<|>R8|ITEM<[^*]*|>ITEM)\*/')
 
 
 def _check_ghost_form(seg, position, where):
@@ -714,7 +801,8 @@ def erase_check(repo, woven, items):
         kept = []
         pos = 0
         stack = None
-        counts = {'R0': 0, 'R1': 0, 'R2': 0, 'R3': 0, 'R4': 0, 'R5': 0, 'R6': 0, 'R7': 0, 'ghost_segments': 0}
+        counts = {'R0': 0, 'R1': 0, 'R2': 0, 'R3': 0, 'R4': 0, 'R5': 0, 'R6': 0, 'R7': 0, 'R8': 0, 'ghost_segments': 0}
+        r8_open = None
         r4_pat, r4_name = [], []
         for m in _marker.finditer(region):
             tag = m.group(1)
@@ -765,6 +853,21 @@ def erase_check(repo, woven, items):
                     if [t.text for t in tokenize(seg)] != [',', 'Structural']:
                         raise Undecided('erasure: bad R5 segment %r in %s' % (seg, spec.name))
                     counts['R5'] += 1
+                elif otag == 'R8<' and tag == '>R8':
+                    st = [t.text for t in tokenize(seg)]
+                    if r8_open is None:
+                        # `|eta_v| -> (eta_r: T) ensures eta_r ==`
+                        if not (len(st) == 14 and st[:3] == ['|', 'eta_v', '|'] and st[3:7] == ['-', '>', '(', 'eta_r'] and st[7] == ':'
+                                and re.fullmatch(r'[A-Za-z_]\w*', st[8]) and st[9:] == [')', 'ensures', 'eta_r', '=', '=']):
+                            raise Undecided('erasure: bad R8 head %r in %s' % (seg, spec.name))
+                        r8_open = len(kept)
+                    else:
+                        path = [t.text for t in tokenize(''.join(kept[r8_open:]))]
+                        if not (path and all(re.fullmatch(r'[A-Za-z_]\w*|:', x) for x in path)
+                                and st == ['(', 'eta_v', ')', '{'] + path + ['(', 'eta_v', ')', '}']):
+                            raise Undecided('erasure: bad R8 tail %r (path %r) in %s' % (seg, path, spec.name))
+                        r8_open = None
+                        counts['R8'] += 1
                 elif otag == 'R7<' and tag == '>R7':
                     if [t.text for t in tokenize(seg)] != ["'static"]:
                         raise Undecided('erasure: bad R7 segment %r in %s' % (seg, spec.name))
